@@ -139,7 +139,7 @@ PROPS = {
 
 NOT_APPLICABLE = {}
 
-_A = 'Coq kernel; no axioms; hand-written Layer A model of src/lib.rs + src/iter.rs validated against the real crate by step-wise differential runs (bounded by the traces run: structured random + corpus, debug and release, 5 hashers incl. all-colliding); hashbrown RawTable contract assumed'
+_A = 'Coq kernel; no axioms; hand-written Layer A model of src/lib.rs + src/iter.rs validated against the real crate by step-wise differential runs (bounded by the traces run: structured random + corpus, debug and release, 6 hashers incl. all-colliding and one with a specialised hash_one, 5 key/value type instantiations); hashbrown RawTable contract assumed'
 _T = 'Coq proof (invariant / characterisation lemmas by induction over operations, all oracles) + extracted-model differential correspondence and extracted monitors on the implementation'
 MANIFEST_TEXT = {
     'C01': dict(text='Theorems C01_bound / C01_arith over every reachable state of the Layer A model (all histories, limits 0..2^64-1, capacities, table oracles): bound on the counter and on the unbounded sum of size estimates, no 64-bit under/overflow, eviction loop terminates; C01_total: with the invariant of the hash table itself and tables below 2^48 entries every step is defined. Tied to /repo by the step-wise differential check and the extracted monitor c01_mon on the implementation.', note=_A, technique=_T),
@@ -159,7 +159,7 @@ MANIFEST_TEXT = {
     'C19': dict(text='(1) Theorem C19_model_readonly: every &self operation of the model is the identity on the whole state; (2) Theorem C19_static_no_write over the call graph regenerated from the source: no write primitive is reachable from any &self operation, for all inputs; (3) on the implementation the structural fingerprint (addresses, links, sizes, scalars, geometry) read through the hook is compared before and after every &self call, for present and absent keys, and the fingerprint of every other cache after every operation.', note=_A + '; static graph is a syntactic over-approximation; thread schedules are not executed, the constant-heap argument covers them', technique='Coq proof over the model + Coq proof over a call graph generated from the source + differential fingerprint comparison'),
     'C08': dict(engine='coq-layerM+probe', text='Layer M model of src/mem_size.rs (type/value universe mirroring every override and its delegation, sizeof a Section variable): theorems C08_bulk (all four bulk helpers = element-wise sums for every nesting and list), C08_mem, C08_container, C08_wrapper, C08_depth (the flat iterator uses one frame whatever the number of empty sections), C08_flat_iterator. Tied to the code by a probe over ~300 concrete nested types with values built by random capacity scripts, eight iterator shapes, and 10^6-10^7-element runs on a 256 KiB stack in debug and release; the model is evaluated on the same terms by vm_compute.', note='Coq kernel, no axioms; sizeof is a parameter instantiated by measured numbers; totality of a Gallina function says nothing about the Rust stack: the stack clause is decided by the frame-depth model plus the large-count runs; poisoned locks excluded (DESIGN.md 9.4)', technique='Coq proof by induction on the type universe + model evaluated in Coq against the real trait implementations (differential)', ref='DESIGN.md section 7 (C08), coq/M/README.md'),
     'C09': dict(engine='coq-layerM+probe', text='Theorems C09_exact (for the exact class of constructors and any nesting, heap_size = alloc_bytes, the ground-truth model of what std keeps allocated, under len <= cap well-typedness), C09_upper, C09_map / C09_set (bounds for hash tables), C09_ref. alloc_bytes is validated against a counting global allocator on every probed value, and the real heap_size is compared with both.', note='Coq kernel, no axioms; alloc_bytes is a model of std allocation behaviour validated (exactly, on every probed value) against the counting allocator; hashbrown bucket counts recovered from capacity()', technique='Coq proof + model evaluated in Coq against the real implementation and a counting allocator (differential)', ref='DESIGN.md section 7 (C09), coq/M/README.md'),
-    'C07': dict(text='Layer B (heap of nodes with links, recorded size and payload ownership; any access to a freed node or a moved-out payload faults): theorems C07_unhinge / C07_set_head / C07_touch (list surgery at every position keeps the representation invariant RI and never faults), C07_realloc (for EVERY table iteration order the reallocation loop re-links all entries, frees every old bucket, never touches freed memory, and leaves the abstract list unchanged), C07_traversal (cursors never step onto the seal). The monitor ri_check, proved sound (C07_monitor_sound), is evaluated on the implementation pointer graph read by the dangling-safe hook after every step, with address stability and lookups-hit-the-linked-bucket checks.', note='Coq kernel, no axioms; Layer B transliterates the list surgery and the reallocation loop by hand; the composition of every public operation from these primitives is Layer B stepB, proved to refine Layer A (C07_public_ops_refine, C07_reachable_coherent) and run on the observed pointer graphs; the table is modelled as the set of listed buckets (hash probing is hashbrown, trusted); Rust aliasing rules not modelled', technique='Coq proof (separation-style reasoning on a functional heap, induction over arbitrary iteration orders) + extracted monitor on hook snapshots'),
+    'C07': dict(text='Layer B (heap of nodes with links, recorded size and payload ownership; any access to a freed node or a moved-out payload faults): theorems C07_unhinge / C07_set_head / C07_touch (list surgery at every position keeps the representation invariant RI and never faults), C07_realloc (for EVERY table iteration order the reallocation loop re-links all entries, frees every old bucket, never touches freed memory, and leaves the abstract list unchanged), C07_traversal (cursors never step onto the seal). The monitor ri_check, proved sound (C07_monitor_sound), is evaluated on the implementation pointer graph read by the dangling-safe hook after every step, with address stability and lookups-hit-the-linked-bucket checks.', note='Coq kernel, no axioms; Layer B transliterates the list surgery and the reallocation loop by hand (17 pointer functions are re-translated from the source on every run and proved equal to these transliterations: Layer P); the composition of every public operation from these primitives is Layer B stepB, proved to refine Layer A (C07_public_ops_refine, C07_reachable_coherent), proved free of pointer faults (C07_no_pointer_fault, C07_no_pointer_fault_with_buckets) and run on the observed pointer graphs; the table is modelled as the set of listed buckets (hash probing is hashbrown, trusted); Rust aliasing rules not modelled', technique='Coq proof (separation-style reasoning on a functional heap, induction over arbitrary iteration orders) + extracted monitor on hook snapshots'),
     'C17': dict(text='Theorem C17_taking_run (Layer B, payload ownership): for every pattern and prefix a taking iterator never reads a moved-out payload, moves out exactly what it yielded, each once, leaves all other buckets live and links untouched; C17_drain_forget (Layer A): a forgotten Drain leaves an empty consistent cache, drops nothing, leaks exactly the unconsumed; C17_into_iter_forget. On the implementation every generated trace forgets iterators after random prefixes and keeps using and dropping the caches; any token dropped twice or dropped after being handed back is a violation.', note=_A + '; borrowing iterators own nothing', technique=_T),
-    'C16': dict(text='Model of every point at which an operation calls user code (A/PanicA.v: panic_points, with the state an unwinder finds and the tokens unwinding drops). Theorem C16_all_points: for every operation, state, oracle and EVERY such point the accounting invariant holds (current_size = sum of recorded sizes <= max_size, distinct keys), nothing held appeared from nowhere, and nothing dropped by unwinding is still held; C16_closure / C16_predicate: at closure / predicate points nothing is lost except what the predicate rejected; C16_clone: the source is untouched. Correspondence: panic_trace injects a panic at every callback of every candidate operation in generated states of the real crate (debug and release); the state found after catch_unwind must be the state the model lists for that point, the pointer graph must satisfy ri_check, and the cache is used further and dropped with identity-level drop tracking.', note=_A + '; pointer-level coherence at a panic point follows from callbacks sitting only between the list-surgery primitives proved in Layer B (argued from the structure of panic_points, not a separate theorem)', technique='Coq proof over a model of all callback points + systematic fault injection on the implementation compared with the model (fault enumeration)'),
+    'C16': dict(text='Model of every point at which an operation calls user code (A/PanicA.v: panic_points, with the state an unwinder finds and the tokens unwinding drops). Theorem C16_all_points: for every operation, state, oracle and EVERY such point the accounting invariant holds (current_size = sum of recorded sizes <= max_size, distinct keys), nothing held appeared from nowhere, and nothing dropped by unwinding is still held; C16_closure / C16_predicate: at closure / predicate points nothing is lost except what the predicate rejected; C16_clone: the source is untouched. Correspondence: panic_trace injects a panic at every callback of every candidate operation in generated states of the real crate (debug and release); the state found after catch_unwind must be the state the model lists for that point, the pointer graph must satisfy ri_check, and the cache is used further and dropped with identity-level drop tracking.', note=_A + '; pointer-level coherence at every callback point is a theorem (C16_pointer_level_points: the pointer-level state reached at each point satisfies the representation invariant and abstracts to the modelled unwinder state); where the code calls user code is the hand-written list panic_points, tied to the code by fault injection (counts and states compared)', technique='Coq proof over a model of all callback points + systematic fault injection on the implementation compared with the model (fault enumeration)'),
 }
